@@ -4,10 +4,13 @@ verus! {
 //@include shims/uuid.rs
 //@include shims/std_option.rs
 pub enum OperationError { Backend, Other }
-pub enum Attribute { Class, Member, DynMember, MemberOf, DirectMemberOf, Other(u64) }
+pub struct AttrString { pub o: u64 }
+//@extract Attribute
 pub enum EntryClass { Group, MemberOf, Other(u64) }
 pub struct Value { pub o: u64 }
 #[verifier::external_body] pub fn kvx_class_value(c: EntryClass) -> (r: Value) { unimplemented!() }
+pub enum PartialValue { Class(EntryClass), Refer(Uuid), Uuid(Uuid), Other(u64) }
+#[verifier::external_body] pub fn kvx_class_pv(c: EntryClass) -> (r: PartialValue) ensures r == PartialValue::Class(c) { unimplemented!() }
 // In this unit `Vec` is a stand-in viewed as a sequence (shadows std Vec)
 #[verifier::external_body] #[verifier::accept_recursive_types(T)] pub struct Vec<T> { p: core::marker::PhantomData<T> }
 impl<T> View for Vec<T> { type V = Seq<T>; uninterp spec fn view(&self) -> Seq<T>; }
@@ -79,16 +82,33 @@ impl EntryInvalidCommitted {
     #[verifier::external_body] pub fn set_ava_set(&mut self, a: &Attribute, v: ValueSet)
         ensures final(self).mo() == (if *a is MemberOf { v.view() } else { old(self).mo() }), final(self).dmo() == (if *a is DirectMemberOf { v.view() } else { old(self).dmo() }) { unimplemented!() }
 }
-pub struct FC { pub o: u8 }
-pub struct Filter { pub o: u8 }
+//@extract FC
+//@extract f_eq
+//@extract f_and
+//@extract f_or
+// f_and!([..]) / f_or!([..]) = f_and / f_or of the array's elements
+#[verifier::external_body] pub fn kvx_f_and_arr<const N: usize>(vs: [FC; N]) -> (r: FC) ensures r matches FC::And(l) && l@ == vs@ { unimplemented!() }
+#[verifier::external_body] pub fn kvx_f_or_arr<const N: usize>(vs: [FC; N]) -> (r: FC) ensures r matches FC::Or(l) && l@ == vs@ { unimplemented!() }
+pub struct Filter { pub fc: FC }
+pub fn kvx_filter(fc: FC) -> (r: Filter) ensures r.fc == fc { Filter { fc } }        // filter!(fc): live entries only
 pub struct Db { pub o: int }
-// the live groups that list `u` as member or dynamic member (the query do_group_memberof issues; search semantics: C01)
-pub uninterp spec fn direct_groups(db: Db, u: Uuid) -> Seq<Arc<Group>>;
+// the live entries matching a filter, as groups (search returns exactly the matching entries: C01)
+pub uninterp spec fn matching(db: Db, fc: FC) -> Seq<Arc<Group>>;
+// the query the statement describes: live groups that list `u` as member or dynamic member
+pub open spec fn is_member_query(fc: FC, u: Uuid) -> bool {
+    fc matches FC::And(l) && l@.len() == 2 && l@[0] == FC::Eq(Attribute::Class, PartialValue::Class(EntryClass::Group))
+    && (l@[1] matches FC::Or(m) && m@.len() == 2 && m@[0] == FC::Eq(Attribute::Member, PartialValue::Refer(u)) && m@[1] == FC::Eq(Attribute::DynMember, PartialValue::Refer(u)))
+}
 pub struct QueryServerWriteTransaction { pub o: u8 }
 impl QueryServerWriteTransaction {
     pub uninterp spec fn db(&self) -> Db;
-    #[verifier::external_body] pub fn kvx_search_direct_groups(&mut self, u: Uuid) -> (r: Result<Vec<Arc<Group>>, OperationError>)
-        ensures final(self).db() == old(self).db(), r matches Ok(v) ==> v@ == direct_groups(old(self).db(), u) { unimplemented!() }
+    #[verifier::external_body] pub fn internal_search(&mut self, f: Filter) -> (r: Result<Vec<Arc<Group>>, OperationError>)
+        ensures final(self).db() == old(self).db(), r matches Ok(v) ==> v@ == matching(old(self).db(), f.fc) { unimplemented!() }
+}
+pub open spec fn step_ok(db: Db, uuid: Uuid, t: &EntryInvalidCommitted) -> bool {
+    exists|fc: FC| #[trigger] is_member_query(fc, uuid)
+        && (forall|u: Uuid| #[trigger] t.dmo().contains(u) <==> in_dmo(matching(db, fc), u))
+        && (forall|u: Uuid| #[trigger] t.mo().contains(u) <==> (in_dmo(matching(db, fc), u) || inherited(matching(db, fc), u)))
 }
 pub open spec fn opt_has(o: Option<ValueSet>, u: Uuid) -> bool { o is Some && o->Some_0.view().contains(u) }
 // ---- the statement (C17), one recomputation step for one entry ----
